@@ -55,6 +55,41 @@ def do(z, op):
     return None
 
 
+def _unlimited_child(a):
+    img, password, ops, as_file = a
+    import py7zr
+
+    resource.setrlimit(resource.RLIMIT_AS, (resource.RLIM_INFINITY, resource.RLIM_INFINITY))
+    with open("/proc/self/statm") as f:
+        rss0 = int(f.read().split()[1]) * os.sysconf("SC_PAGE_SIZE")
+    outcome = "returned"
+    try:
+        if as_file:
+            fpath = os.path.join(os.getcwd(), "c05-input-unlimited.7z")
+            with open(fpath, "wb") as fh:
+                fh.write(img)
+            z = py7zr.SevenZipFile(fpath, password=password)
+        else:
+            z = py7zr.SevenZipFile(io.BytesIO(img), password=password)
+        for op in ops:
+            do(z, op)
+    except MemoryError:
+        outcome = "MemoryError"
+    except BaseException as ex:  # noqa
+        outcome = type(ex).__name__
+    peak = resource.getrusage(resource.RUSAGE_SELF).ru_maxrss * 1024
+    return outcome, max(0, peak - rss0)
+
+
+def _unlimited_verdict(img, password, ops, as_file):
+    from mc.core.pool import forked
+
+    st, val = forked(_unlimited_child, (img, password, ops, as_file), timeout=120)
+    if st == "ok":
+        return val
+    return (st, 1 << 40)  # the child died or hung without the limit: certainly not a harmless quirk
+
+
 def probe(img: bytes, password, maxlen: int, progress, label, as_file: bool = False):
     """Run open + all call sequences.  -> list of (symptom, detail).  Never raises except SoftTimeout at the outermost level."""
     import py7zr
@@ -62,6 +97,7 @@ def probe(img: bytes, password, maxlen: int, progress, label, as_file: bool = Fa
     out = []
     t_budget = budget(len(img))
     counts = {"opened": 0, "calls": 0}
+    replay_ops = [[]]
 
     def timed(fn, what):
         signal.setitimer(signal.ITIMER_REAL, t_budget)
@@ -72,7 +108,14 @@ def probe(img: bytes, password, maxlen: int, progress, label, as_file: bool = Fa
             out.append(("hang", f"{what} did not finish within {t_budget:.1f} s"))
             return ("hang", None)
         except MemoryError:
-            out.append(("memory", f"{what} raised MemoryError under an address-space limit of baseline + 1 GiB"))
+            signal.setitimer(signal.ITIMER_REAL, 0)
+            # Was memory really exhausted?  A codec extension may raise MemoryError as its generic failure on corrupt data
+            # (pyppmd does) without asking for any: repeat the same calls in a child process WITHOUT the limit and look.
+            verdict = _unlimited_verdict(img, password, replay_ops[0], as_file)
+            if verdict[0] == "MemoryError" and verdict[1] < (256 << 20):
+                counts["memoryerror_without_memory_pressure"] = counts.get("memoryerror_without_memory_pressure", 0) + 1
+                return ("raise", "MemoryError")
+            out.append(("memory", f"{what} raised MemoryError under an address-space limit of baseline + 1 GiB (without the limit the same calls end with {verdict[0]} after the resident set grew by {verdict[1] >> 20} MiB)"))
             return ("memory", None)
         except Exception as ex:
             return ("raise", type(ex).__name__)
@@ -111,6 +154,7 @@ def probe(img: bytes, password, maxlen: int, progress, label, as_file: bool = Fa
         bad = False
         for i, op in enumerate(seq):
             counts["calls"] += 1
+            replay_ops[0] = list(seq[: i + 1])
             st, _ = timed(lambda: do(z, op), f"{list(seq[: i + 1])}")
             if st in ("hang", "memory", "base"):
                 bad = True
@@ -156,6 +200,7 @@ def shard(task):
             viol.append(("memory", "peak resident set grew by more than 1 GiB while processing this input"))
         sh.case(digest(img), nontrivial=bool(counts["opened"]), sample={"input": label, "bytes": len(img), "opened": bool(counts["opened"]), "calls": counts["calls"]} if len(sh.samples) < 2 and counts["opened"] else None)
         sh.count("inputs_opened", counts["opened"])
+        sh.count("memoryerror_without_memory_pressure_not_judged", counts.get("memoryerror_without_memory_pressure", 0))
         sh.count("calls", counts["calls"])
         if any(sym in ("hang", "memory") for sym, _ in viol):
             slow["n"] += 1
@@ -452,7 +497,7 @@ def main(tier="quick", seed=0, only=None):
             "swapped with its successor, FilesInfo property sizes left stale and re-fitted; all outer CRCs re-sealed (raw, LZMA- and "
             f"AES-encoded headers); missing and 5 wrong passwords; scaling series: five families of headers large in one dimension (n folders and packed streams, n files in one folder, n stream-less files, n chained coders in one folder, n files with n/4 repeated name properties) at n, 2n, 4n - open() must not take more than 2.8x as long at both doublings; decompression bombs: for 8 codecs a packed stream expanding to 32 MiB in a folder that declares 10 bytes (peak Python-level memory, by tracemalloc, must stay within 64 x (input + declared output) + 16 MiB); the signature header's NextHeaderOffset / Size / CRC set to the boundary values with StartHeaderCRC re-sealed, each as a stream and as a real file opened by name. On every input that opens: every call sequence of length <= {maxlen} (byte-level damage: <= 2) over "
             f"{OPS} on one session (incl. extract twice without reset). Oracle: each call returns or raises an Exception within 8 s + 50 us/byte, "
-            "no MemoryError with RLIMIT_AS = baseline + 1 GiB, worker process alive. Non-trivial = the input got past open()."
+            "no MemoryError with RLIMIT_AS = baseline + 1 GiB (a MemoryError is re-examined in a child process without the limit: raised again while the resident set grows by less than 256 MiB it is a codec's way of reporting corrupt data - counted, not judged), worker process alive. Non-trivial = the input got past open()."
         ),
         assumptions=["codec dictionary/model-size properties (LZMA, LZMA2, PPMd) are not mutated: a large dictionary is a legal declaration whose cost belongs to the codec"],
         exhaustive=True, max_sequence_length=maxlen,
